@@ -1,6 +1,19 @@
 /-
-  ICG.Driver.Shp — line protocol of domain `shp` (stub: to be filled in by the domain's owner).
+  ICG.Driver.Shp — line protocol of domain `shp` (Shapley value, exploitability, norms).
+
+  Vectors have exactly `2^n` entries (anything else is `bad-op`); `<known>` is a string of `2^n`
+  characters `0`/`1`.  Answers are exact rationals, or `err:<kind>` where the Python call raises.
+
+    shp contrib <n>                          → comma list  s!(n−s−1)!
+    shp shapley <n> <values>                 → comma list  (complete game given by its values)
+    shp shapley1 <n> <i> <values>            → value       (single-player entry point)
+    shp tshapley <n> <known> <values>        → comma list | err:value   (real incomplete-game class)
+    shp tshapley1 <n> <i> <known> <values>   → value | err:value | err:index
+    shp maxgain <n> <i> <lo> <hi>            → comma list  (MaxGainGame(i).get_values())
+    shp expl <n> <known> <lo> <hi>           → value | err:value        (compute_exploitability)
+    shp norms <n> <lo> <hi>                  → `l1 l2sq linf`
 -/
+import ICG.Model.Shapley
 import ICG.Driver.Proto
 namespace ICG.Driver.Shp
 open ICG ICG.Proto
@@ -8,7 +21,81 @@ open ICG ICG.Proto
 abbrev State := Unit
 def init : State := ()
 
+def vecFn (l : List Rat) : Nat → Rat := (compactFn l.length (fun c => l[c]?.getD 0)).f
+
+def parseVec? (n : Nat) (s : String) : Option (Nat → Rat) := do
+  let l ← parseRats? s
+  if l.length = 2 ^ n then some (vecFn l) else none
+
+def parseKnown? (n : Nat) (s : String) : Option (Nat → Bool) :=
+  let l := s.toList
+  if l.length = 2 ^ n ∧ l.all (fun ch => ch == '0' || ch == '1') then
+    let a := l.toArray
+    some (fun c => a[c]?.getD '0' == '1')
+  else none
+
+def showE {β} (f : β → String) : Except Err β → String
+  | .ok x => f x
+  | .error e => toString e
+
+def mkTable (n : Nat) (known : Nat → Bool) (lo hi : Nat → Rat) : Table Rat :=
+  { n := n, known := known, lo := lo, hi := hi }
+
 def handle (s : State) : List String → State × String
+  | ["contrib", n] =>
+    match n.toNat? with
+    | some n => (s, showNats (contributions n))
+    | none => (s, "bad-op")
+  | ["shapley", n, vals] =>
+    match n.toNat? with
+    | some n =>
+      match parseVec? n vals with
+      | some v => (s, showE showRats (AtRat.shapley n v))
+      | none => (s, "bad-op")
+    | none => (s, "bad-op")
+  | ["shapley1", n, i, vals] =>
+    match n.toNat?, i.toNat? with
+    | some n, some i =>
+      match parseVec? n vals with
+      | some v => if i < n then (s, showE showRat (AtRat.shapleyForPlayer n v i)) else (s, "bad-op")
+      | none => (s, "bad-op")
+    | _, _ => (s, "bad-op")
+  | ["tshapley", n, known, vals] =>
+    match n.toNat? with
+    | some n =>
+      match parseKnown? n known, parseVec? n vals with
+      | some k, some v => (s, showE showRats (AtRat.tableShapley (mkTable n k v v)))
+      | _, _ => (s, "bad-op")
+    | none => (s, "bad-op")
+  | ["tshapley1", n, i, known, vals] =>
+    match n.toNat?, i.toNat? with
+    | some n, some i =>
+      match parseKnown? n known, parseVec? n vals with
+      | some k, some v => (s, showE showRat (AtRat.tableShapleyForPlayer (mkTable n k v v) i))
+      | _, _ => (s, "bad-op")
+    | _, _ => (s, "bad-op")
+  | ["maxgain", n, i, lo, hi] =>
+    match n.toNat?, i.toNat? with
+    | some n, some i =>
+      match parseVec? n lo, parseVec? n hi with
+      | some lo, some hi => (s, showRats (AtRat.maxGain n i lo hi))
+      | _, _ => (s, "bad-op")
+    | _, _ => (s, "bad-op")
+  | ["expl", n, known, lo, hi] =>
+    match n.toNat? with
+    | some n =>
+      match parseKnown? n known, parseVec? n lo, parseVec? n hi with
+      | some k, some lo, some hi => (s, showE showRat (AtRat.exploitability (mkTable n k lo hi)))
+      | _, _, _ => (s, "bad-op")
+    | none => (s, "bad-op")
+  | ["norms", n, lo, hi] =>
+    match n.toNat? with
+    | some n =>
+      match parseVec? n lo, parseVec? n hi with
+      | some lo, some hi =>
+        (s, s!"{showRat (AtRat.l1 n lo hi)} {showRat (AtRat.l2sq n lo hi)} {showE showRat (AtRat.linf n lo hi)}")
+      | _, _ => (s, "bad-op")
+    | none => (s, "bad-op")
   | _ => (s, "bad-op")
 
 end ICG.Driver.Shp
